@@ -39,7 +39,7 @@ Ordered(s) == IF Pinned THEN FALSE ELSE s # "set_display"
 \* the program pool: abstract families and the sites their output passes through
 Families == {"kwargs", "orchain", "proto", "setlit", "litunion", "dictkeys", "attrs", "typeddict", "overload",
              "generic", "narrow", "scopes", "gentwin", "trymulti", "closure",
-             "corpus", "sharedsig"}   \* "corpus": the repository's own test snippets (no modelled unordered site: must be deterministic)
+             "corpus", "sharedsig", "attrchecker"}   \* "corpus": the repository's own test snippets (no modelled unordered site: must be deterministic)
 Exercises(p) ==
     CASE p = "kwargs" -> {"extra_kwargs"}
       [] p = "orchain" -> {"or_constraint"}
